@@ -49,7 +49,21 @@ func buildHostileScenario(r *Rng, idx int, maxConns int, endings []string) *Scen
 	chosen := map[string]bool{}
 	var keys []string
 	// rotate through the table so that every service gets its share
-	first := svcs[idx%len(svcs)]
+	// rotation with weights: services with more state and code get a larger share of the runs
+	var rot []svcSpec
+	for _, s := range svcs {
+		w := 1
+		switch s.Key {
+		case "ftp":
+			w = 5
+		case "smtp", "ldap", "vnc", "ipp", "tftp", "ssh-simulator", "memcached", "redis", "telnet":
+			w = 2
+		}
+		for ; w > 0; w-- {
+			rot = append(rot, s)
+		}
+	}
+	first := rot[idx%len(rot)]
 	tries := 0
 	for len(keys) < ns {
 		s := svcs[r.Intn(len(svcs))]
